@@ -125,6 +125,16 @@ func (w *world) rootsScenarios() []rootsScen {
 		sc.auth = w.pricesByContractHost(sc.prices)
 		s = append(s, sc)
 	}
+	for i, ps := range priceSpread {
+		sc := mk(ps.name, 180+byte(i), 6, rich, 1, 3, false)
+		sc.prices = w.pricesWith(ps.v)
+		s = append(s, sc)
+	}
+	cost := w.prices.RPCSectorRootsCost(3).RenterCost()
+	s = append(s, mk("funds-exactly-the-cost", 184, 6, cost, 1, 3, false), mk("funds-one-hasting-short", 185, 6, cost.Sub(types.NewCurrency64(1)), 1, 3, false))
+	for i, n := range []int{15, 16, 17} {
+		s = append(s, mk(fmt.Sprintf("sectors-%d-range-across-subtrees", n), 186+byte(i), n, rich, 7, 8, false))
+	}
 	// illegal ranges against a host that answers as if the request were fine (the
 	// invalid-* scenarios above are the same requests against a host that rejects them)
 	for i, q := range []struct {
@@ -285,6 +295,8 @@ func (w *world) runRoots(sc *rootsScen, c corr) *result {
 	obs := "OErr"
 	if r.ok {
 		obs = revObs(w, res.Revision, res.Usage, uint64(len(res.Roots)))
+		rv := res.Revision
+		r.rev = &rv
 		inRange := sc.length > 0 && sc.offset <= uint64(len(sc.roots)) && sc.length <= uint64(len(sc.roots))-sc.offset
 		if !inRange || !slices.Equal(res.Roots, sc.roots[sc.offset:sc.offset+sc.length]) {
 			r.fail("roots-returns-foreign-roots", "RPCSectorRoots(offset=%d,length=%d) returned success with %d roots that are not the contract's roots [%d,%d)", sc.offset, sc.length, len(res.Roots), sc.offset, sc.offset+sc.length)
@@ -357,6 +369,17 @@ func (w *world) appendScenarios() []appendScen {
 		mk("six-plus-three-partly-within-capacity", 26, 6, 1, rich, 3, nil, false),
 		mk("insufficient-funds", 27, 5, 0, types.NewCurrency64(1000), 2, nil, false),
 		mk("no-sectors-requested", 28, 4, 0, rich, 0, nil, false),
+	}
+	for i, ps := range priceSpread {
+		sc := mk(ps.name, 190+byte(i), 5, 0, rich, 3, nil, false)
+		sc.prices = w.pricesWith(ps.v)
+		s = append(s, sc)
+	}
+	acost := w.prices.RPCAppendSectorsCost(2, 1144-w.prices.TipHeight).RenterCost()
+	s = append(s, mk("funds-exactly-the-cost", 194, 5, 0, acost, 2, nil, false), mk("funds-one-hasting-short", 195, 5, 0, acost.Sub(types.NewCurrency64(1)), 2, nil, false),
+		mk("exactly-fills-spare-capacity", 196, 6, 2, rich, 2, nil, false))
+	for i, n := range []int{15, 16, 17} {
+		s = append(s, mk(fmt.Sprintf("sectors-%d-plus-two", n), 197+byte(i), n, 0, rich, 2, nil, false))
 	}
 	for i, f := range []foreign{"a", "b", "c", "d"} {
 		sc := mk(foreignNames[f], 29+byte(i), 5, 0, rich, 3, nil, false)
@@ -513,6 +536,8 @@ func (w *world) runAppend(sc *appendScen, c corr) *result {
 	obs := "OErr"
 	if r.ok {
 		obs = revObs(w, res.Revision, res.Usage, uint64(len(res.Sectors)))
+		rv := res.Revision
+		r.rev, r.secs = &rv, res.Sectors
 		if !slices.Equal(res.Sectors, appended) || len(resp.Accepted) != len(sc.add) {
 			r.fail("append-returns-foreign-sector-list", "RPCAppendSectors returned %d sectors that are not the requested sectors the host marked accepted", len(res.Sectors))
 		}
@@ -594,6 +619,16 @@ func (w *world) freeScenarios() []freeScen {
 		mk("invalid-more-indices-than-sectors", 50, 2, rich, []uint64{0, 1, 2, 3}, false),
 		mk("invalid-index-on-empty-contract", 55, 0, rich, []uint64{0}, false),
 		mk("invalid-index-equal-to-sector-count", 56, 5, rich, []uint64{5}, false),
+	}
+	for i, ps := range priceSpread {
+		sc := mk(ps.name, 60+byte(i), 6, rich, []uint64{1, 3}, false)
+		sc.prices = w.pricesWith(ps.v)
+		s = append(s, sc)
+	}
+	fcost := w.prices.RPCFreeSectorsCost(2).RenterCost()
+	s = append(s, mk("funds-exactly-the-cost", 64, 6, fcost, []uint64{1, 3}, false), mk("funds-one-hasting-short", 65, 6, fcost.Sub(types.NewCurrency64(1)), []uint64{1, 3}, false))
+	for i, n := range []int{15, 16, 17} {
+		s = append(s, mk(fmt.Sprintf("sectors-%d-free-first-middle-last", n), 70+byte(i), n, rich, []uint64{0, 8, uint64(n - 1)}, false))
 	}
 	for i, f := range []foreign{"a", "b", "c", "d"} {
 		sc := mk(foreignNames[f], 51+byte(i), 6, rich, []uint64{1, 3}, false)
@@ -745,6 +780,8 @@ func (w *world) runFree(sc *freeScen, c corr) *result {
 	obs := "OErr"
 	if r.ok {
 		obs = revObs(w, res.Revision, res.Usage)
+		rv := res.Revision
+		r.rev = &rv
 		cost := mulU(bi(sc.prices.FreeSectorPrice), uint64(len(norm)))
 		wantRoot := types.Hash256{}
 		if sc.inRange() {
@@ -786,7 +823,7 @@ type fundSt struct {
 }
 
 func acct(tag byte, i int) proto4.Account {
-	return proto4.Account(types.HashBytes([]byte{'a', tag, byte(i)}))
+	return proto4.Account(types.HashBytes([]byte{'a', tag, byte(i), byte(i >> 8)}))
 }
 
 func (w *world) fundScenarios() []fundScen {
@@ -808,6 +845,10 @@ func (w *world) fundScenarios() []fundScen {
 		mk("invalid-no-deposits", 64, rich, nil, false),
 		mk("invalid-zero-amount", 65, rich, []types.Currency{sc(1), types.ZeroCurrency}, false),
 	}
+	many := func(n int) []types.Currency { return slices.Repeat([]types.Currency{types.NewCurrency64(7)}, n) }
+	s = append(s, mk("batch-1000-deposits", 75, rich, many(proto4.MaxAccountBatchSize), false),
+		mk("batch-1001-deposits", 76, rich, many(proto4.MaxAccountBatchSize+1), false),
+		mk("funds-one-hasting-short", 77, sc(6).Sub(types.NewCurrency64(1)), []types.Currency{sc(2), sc(4)}, false))
 	z := mk("invalid-zero-account", 66, rich, []types.Currency{sc(1)}, false)
 	z.deposits[0].Account, z.acctsOK = proto4.Account{}, false
 	s = append(s, z)
@@ -905,6 +946,8 @@ func (w *world) runFund(sc *fundScen, c corr) *result {
 	obs := "OErr"
 	if r.ok {
 		obs = revObs(w, res.Revision, res.Usage, uint64(len(res.Balances)))
+		rv := res.Revision
+		r.rev = &rv
 		w.checkRevision(r, old, res.Revision, res.Usage, total, big.NewInt(0), old.FileMerkleRoot, old.Filesize, old.Capacity, 1)
 		okb := len(res.Balances) == len(sc.deposits)
 		for i := range res.Balances {
@@ -960,6 +1003,9 @@ func (w *world) replenishScenarios() []replScen {
 		mk("huge-target-one-account", 84, rich, half, []types.Currency{sc(1)}, false),
 		mk("invalid-zero-target", 85, rich, types.ZeroCurrency, []types.Currency{types.ZeroCurrency}, false),
 		mk("invalid-no-accounts", 86, rich, sc(1), nil, false),
+		mk("batch-1000-accounts", 89, rich, types.NewCurrency64(9), slices.Repeat([]types.Currency{types.NewCurrency64(9)}, proto4.MaxAccountBatchSize), false),
+		mk("batch-1001-accounts", 90, rich, types.NewCurrency64(9), slices.Repeat([]types.Currency{types.NewCurrency64(9)}, proto4.MaxAccountBatchSize+1), false),
+		mk("funds-one-hasting-short", 91, sc(4).Sub(types.NewCurrency64(1)), sc(2), []types.Currency{sc(2), sc(2)}, false),
 	}
 	for i, f := range []foreign{"b", "d"} { // no price table in this RPC
 		fs := mk(foreignNames[f], 87+byte(i), rich, sc(10), []types.Currency{sc(10), sc(3)}, false)
@@ -1117,6 +1163,8 @@ func (w *world) runReplenish(sc *replScen, c corr) *result {
 	obs := "OErr"
 	if r.ok {
 		obs = revObs(w, res.Revision, res.Usage, uint64(len(res.Deposits)))
+		rv := res.Revision
+		r.rev = &rv
 		bound := mulU(bi(sc.target), uint64(len(sc.accounts)))
 		paid := new(big.Int).Sub(old.RenterOutput.Value.Big(), res.Revision.RenterOutput.Value.Big())
 		total := new(big.Int)
